@@ -112,11 +112,11 @@ func Run(c *Case) *vkit.Outcome {
 			closed = true
 		}
 		switch p.Kind {
-		case "ok", "reject", "timeout", "dynok", "dynreject":
+		case "ok", "reject", "timeout", "slowok", "dynok", "dynreject":
 			appendNo++
 			if p.Kind == "reject" || p.Kind == "dynreject" {
 				plan[appendNo] = "reject"
-			} else if p.Kind == "timeout" {
+			} else if p.Kind == "timeout" || p.Kind == "slowok" {
 				plan[appendNo] = p.Kind
 			}
 		}
@@ -131,6 +131,10 @@ func Run(c *Case) *vkit.Outcome {
 			return storekit.Action{Err: storekit.ErrInjected}
 		case "timeout":
 			return storekit.Action{Block: true}
+		case "slowok":
+			// outlasts the 2 ms persistence timeout without looking at the
+			// context; what happens then is up to the inner store
+			return storekit.Action{Delay: 6 * time.Millisecond}
 		}
 		return storekit.Action{}
 	})
@@ -238,6 +242,21 @@ func Run(c *Case) *vkit.Outcome {
 				e := Dyn{ID: id, Payload: "fine", M: map[string]any{"f": func() {}}}
 				expect[id] = exp{"badfunc", true, reflect.TypeOf(e)}
 				publish(bus, c.UseCtx, e)
+			case "slowok":
+				// the memory store ignores the expired context and appends:
+				// a success, nothing to report; SQLite refuses the expired
+				// context: an ordinary timeout failure, nothing written
+				e := Good{ID: id, S: p.Kind}
+				failed := c.Store == "sqlite" || sqlClosed
+				kind := "ok"
+				if failed {
+					kind = "timeout"
+				}
+				expect[id] = exp{kind, failed, reflect.TypeOf(e)}
+				if !failed {
+					okOrder = append(okOrder, id)
+				}
+				publish(bus, c.UseCtx, e)
 			default:
 				e := Good{ID: id, S: p.Kind}
 				failed := p.Kind != "ok" || sqlClosed
@@ -333,7 +352,7 @@ func Run(c *Case) *vkit.Outcome {
 	// exactly one Append attempt per encodable publish (no retry)
 	encodable := 0
 	for _, p := range c.Pubs {
-		if p.Kind == "ok" || p.Kind == "reject" || p.Kind == "timeout" || p.Kind == "dynok" || p.Kind == "dynreject" {
+		if p.Kind == "ok" || p.Kind == "reject" || p.Kind == "timeout" || p.Kind == "slowok" || p.Kind == "dynok" || p.Kind == "dynreject" {
 			encodable++
 		}
 	}
@@ -390,6 +409,12 @@ func Run(c *Case) *vkit.Outcome {
 	}
 	if sqlClosed {
 		o.Class("sqlite_store_closed")
+	}
+	for _, p := range c.Pubs {
+		if p.Kind == "slowok" {
+			o.Class("append_outlasting_the_timeout_in_a_store_that_ignores_contexts")
+			break
+		}
 	}
 	return o
 }
